@@ -142,17 +142,43 @@ fn run_case(case: &Value, tmpdir: &str) -> Value {
     let use_files = case["files"].as_bool().unwrap_or(false);
     let shared = Arc::new(Mutex::new(Shared { pulled: 0, opened: 0, budget_hit: false }));
     let mut created: Vec<String> = vec![];
+    // "dir": true — the files (and "links": [[name, target]...] as symbolic links) are created inside one directory and
+    // the directory itself is the only FILE argument
+    let use_dir = case["dir"].as_bool().unwrap_or(false);
+    let mut created_dir: Option<String> = None;
     if use_files {
         args.push("--".to_string());
+        let base = if use_dir {
+            let d = format!("{}/d_{}", tmpdir, id.as_str().unwrap_or("x"));
+            let _ = std::fs::remove_dir_all(&d);
+            std::fs::create_dir_all(&d).unwrap();
+            args.push(d.clone());
+            created_dir = Some(d.clone());
+            d
+        } else {
+            tmpdir.to_string()
+        };
         for (i, inp) in inputs.iter().enumerate() {
             let name = inp["name"].as_str().map(|s| s.to_string()).unwrap_or(format!("f{}.json", i));
-            let path = format!("{}/{}", tmpdir, name);
+            let path = format!("{}/{}", base, name);
             let mut data = vec![];
             for c in inp["chunks"].as_array().cloned().unwrap_or_default() {
                 data.extend(unhex(c.as_str().unwrap_or("")));
             }
             std::fs::write(&path, data).unwrap();
-            args.push(path.clone());
+            if !use_dir {
+                args.push(path.clone());
+            }
+            created.push(path);
+        }
+        for l in case["links"].as_array().cloned().unwrap_or_default() {
+            let name = l[0].as_str().unwrap_or("link");
+            let target = l[1].as_str().unwrap_or("/nonexistent");
+            let path = format!("{}/{}", base, name);
+            let _ = std::os::unix::fs::symlink(target, &path);
+            if !use_dir {
+                args.push(path.clone());
+            }
             created.push(path);
         }
     }
@@ -223,6 +249,9 @@ fn run_case(case: &Value, tmpdir: &str) -> Value {
             }
         },
     }));
+    if let Some(d) = created_dir {
+        let _ = std::fs::remove_dir_all(&d);
+    }
     for p in created {
         let _ = std::fs::remove_file(p);
     }
